@@ -13,14 +13,18 @@ from harness.impl import graphs as GI
 
 IMPORTS = "From Coq Require Import NArith.\nFrom Ford Require Import Base.Str Out.Graph Out.GraphSpec Corr.C13."
 CASE_T = "case"
-THEOREMS = ["C13_inverse", "C13_inverse_graph", "C13_calledby_is_inverse", "C13_no_dangling", "C13_bfs_exact",
-            "C13_node_limit", "C13_forward_declared", "C13_inverse_declared", "C13_registry_fuel",
-            "C13_call_nodes_sound", "C13_callgraph_limit_partial", "C13_callgraph_limit_refuted",
-            "C13_lazy_inverse_refuted", "C13_graph_false_partial", "C13_graph_false_refuted",
-            "C13_filegraph_direction_partial", "C13_filegraph_direction_refuted"]
+THEOREMS = ["C13_inverse", "C13_registry_fuel", "C13_call_nodes_sound", "C13_no_dangling", "C13_bfs_exact",
+            "C13_node_limit", "C13_inverse_graph", "C13_calledby_is_inverse", "C13_forward_declared",
+            "C13_edges_declared", "C13_inverse_declared", "C13_no_late_nodes", "C13_inverse_complete",
+            "C13_graph_false"]
 COUNTS = {"intended_relations": 0, "intended_arrows_checked": 0, "spec_from_generator": 0}
-REGIONS = {1: "graph-false-neighbour", 2: "lazy-inverse", 4: "filegraph-reversed", 8: "callgraph-limit-double-count",
-           16: "module-procedure-impl-edge", 32: "external-procedure-call-unresolved"}
+# the six defects repaired in /repo (known_findings.d/C13.json "fixed"): their witnesses are replayed on every
+# run and a defect that returns is a failing input
+REGRESSIONS = [("graph-false-neighbour", "c13_graph_false"), ("lazy-inverse", "c13_lazy_inverse"),
+               ("filegraph-reversed", "c13_filegraph_reversed"),
+               ("callgraph-limit-double-count", "c13_callgraph_limit"),
+               ("module-procedure-impl-edge", "c13_module_procedure_impl"),
+               ("external-procedure-call-unresolved", "c13_external_procedure_calls")]
 
 CORPUS = [
     # (files, settings) — hand-written projects that once mattered
@@ -70,7 +74,7 @@ def project_case(rng, files, st, nruns, project=None, intended=None, limits=None
                 wterm = world.term()
                 allv, _ = GI.registered(p)
                 regids = [world.node(r, "KMod") for r in regs]
-                nograph = [world.node(r, "KMod") for r in allv if not r.meta.graph]
+                nograph = sorted(i for i, e in world.ents.items() if not e.get("graph", True))
             else:
                 # same objects -> same ids (ids are assigned in traversal order of the same project)
                 assert wk.term() == wterm, "world changed between runs"
@@ -95,8 +99,8 @@ def project_case(rng, files, st, nruns, project=None, intended=None, limits=None
 
 
 def spec_term(world, allv, proj):
-    """the Spec side from the generator: Some (world with the declared relation, expected registered
-    entities, entities with graph: false) for a strict generated project, else None"""
+    """the Spec side from the generator: Some (world with the declared relation, entities of the registration
+    lists without graph: false, entities with graph: false) for a strict generated project, else None"""
     if proj is None or not proj.get("strict"):
         return "None", []
     rel, ng_keys = GG.declared(proj)
@@ -105,17 +109,13 @@ def spec_term(world, allv, proj):
     allids = [world.node(r, "KMod") for r in allv]
     top = max(world.ents, default=0)          # ids above are entities FORD has no object for: never in a graph
     ng = sorted(keyid[k] for k in ng_keys if k in keyid and keyid[k] <= top)
-    ford_ng = sorted(world.node(r, "KMod") for r in allv if not r.meta.graph)
-    if sorted(set(ng) & set(allids)) != ford_ng:
-        bad.append(f"graph: false written for {sorted(set(ng) & set(allids))} but FORD has it for {ford_ng}")
-    sregs = [i for i in allids if i not in ng]
+    ford_ng = sorted(i for i, e in world.ents.items() if not e.get("graph", True))
+    if ng != ford_ng:
+        bad.append(f"graph: false written for {ng} but FORD has it for {ford_ng}")
+    # what was handed to GraphData.register (which entities are documented is not a relation)
+    sregs = list(world.regids)
     COUNTS["spec_from_generator"] += 1
-    adj, mask = GG.known_defect_view(proj, rel)
-    aterm = "None"
-    if mask:
-        aents, _ = world.gen_world(adj)
-        aterm = f"Some ({world.term(aents)}, {mask})"
-    return f"Some ({world.term(ents)}, {aterm}, {GI.nats(sregs)}, {GI.nats(ng)})", bad
+    return f"Some ({world.term(ents)}, {GI.nats(sregs)}, {GI.nats(ng)})", bad
 
 
 def python_checks(project, gm, log, recs, world):
@@ -182,14 +182,9 @@ def handle(chk, cases, res):
     for idx, (term, meta) in enumerate(cases):
         code = res.get(idx, 0)
         chk.traces += meta["summary"]["graphs"]
-        for bit, key in REGIONS.items():
-            if (code >> 2) & bit:
-                chk.disagreements += 1
-                meta.setdefault("regions", []).append(key)
-                if not chk.known(key, True):
-                    chk.violation("failing-input", {"what": f"known-region {key} without a recorded finding",
-                                                    "files": meta["files"], "settings": meta["settings"]}, True)
-        if code & 2:
+        if code:
+            chk.disagreements += 1
+        if code & 2 or code >> 2:
             chk.violation("failing-input", {"what": "a graph built by FORD violates the property (see detail)",
                                             "files": meta["files"], "settings": meta["settings"], "code": code,
                                             "nruns": meta["nruns"], "rngstate": meta.get("seed")}, True)
@@ -278,10 +273,6 @@ def run(chk):
     res = chk.coq_judge(IMPORTS, CASE_T, "judge", [t for t, _ in cases], shard=5 if quick else 8)
     chk.extra["coq_eval_s"] = round(time.time() - t0, 1)
     handle(chk, cases, res)
-    chk.extra["regions_hit"] = {}
-    for _, meta in cases:
-        for r in meta.get("regions", []):
-            chk.extra["regions_hit"][r] = chk.extra["regions_hit"].get(r, 0) + 1
     end_to_end(chk, rng, 3 if quick else 20)
     chk.extra.update(COUNTS)
     findings(chk)
@@ -326,7 +317,7 @@ def end_to_end(chk, rng, nproj):
                                                 "log": out[-1500:], "files": files, "options": opts}, True)
                 continue
             p = seen["project"]
-            world, regs, recs = GI.collect(p, spy.log)
+            world, regs, recs = GI.collect(p, GI.SpyLog(spy.log, spy.registered))
             allv, _ = GI.registered(p)
             gm = type("GM", (), {})()
             for a in ("usegraph", "typegraph", "callgraph", "filegraph"):
@@ -341,7 +332,8 @@ def end_to_end(chk, rng, nproj):
             for pbl in sbad[:2]:
                 chk.violation("failing-input", {"what": pbl, "files": files, "options": opts}, True)
             term = ("(" + world.term() + ", " + GI.nats([world.node(r, "KMod") for r in regs]) + ", " +
-                    GI.nats([world.node(r, "KMod") for r in allv if not r.meta.graph]) + ", " + coq_bool(show) +
+                    GI.nats(sorted(i for i, e in world.ents.items() if not e.get("graph", True))) + ", " +
+                    coq_bool(show) +
                     ", " + labels + ", " + coq_list([coq_list(GI.graph_term(r) for r in recs)]) + ", " + spec + ")")
             summary = dict(graphs=len(recs), edges=sum(len(g["edges"]) for g in recs))
             cases.append((term, dict(files=files, settings=opts, summary=summary, nruns=1)))
@@ -375,21 +367,20 @@ def end_to_end(chk, rng, nproj):
 
 
 def findings(chk):
-    """replay the recorded witnesses on the implementation"""
+    """the witnesses of the repaired defects are regression inputs: a defect that returns fails the check"""
     import importlib
-    for key, mod in (("graph-false-neighbour", "c13_graph_false"), ("lazy-inverse", "c13_lazy_inverse"),
-                     ("filegraph-reversed", "c13_filegraph_reversed"),
-                     ("callgraph-limit-double-count", "c13_callgraph_limit"),
-                     ("module-procedure-impl-edge", "c13_module_procedure_impl"),
-                     ("external-procedure-call-unresolved", "c13_external_procedure_calls")):
+    for key, mod in REGRESSIONS:
         try:
             m = importlib.import_module("findings." + mod)
-            still = bool(m.demonstrate(verbose=False))
+            back = bool(m.demonstrate(verbose=False))
         except Exception as e:  # noqa
-            chk.notes.append(f"finding {key}: demonstration failed to run: {e!r}")
-            still = False
-        chk.known(key, still)
-        chk.extra.setdefault("finding_replays", {})[key] = still
+            chk.obligation("regression:" + key, False, f"demonstration failed to run: {e!r}")
+            continue
+        chk.count(("regression", key), sample={"regression": key, "defect_present": back})
+        chk.extra.setdefault("regression_replays", {})[key] = back
+        if back:
+            chk.violation("failing-input", {"what": f"repaired defect is back: {key}",
+                                            "demo": f"findings/{mod}.py", "doc": (m.__doc__ or "")[:600]}, True)
 
 
 def replay(chk, rep):
@@ -412,13 +403,13 @@ def replay(chk, rep):
     for pbl in problems:
         print("python check:", pbl)
     res = chk.coq_judge(IMPORTS, CASE_T, "judge", [term])
-    print("judge code (bit0 model<>impl, bit1 property violated, >>2 known-region mask):", res)
+    print("judge code (bit0 model<>impl, bit1 property violated):", res)
     print("relation FORD derived vs relation declared in the source (entity, only FORD, only source):",
           chk.coq_eval(IMPORTS, f"relation_diff {term}")[-2000:])
     out = chk.coq_eval(IMPORTS, f"detail {term}")
-    print("detail (run, graph, model-mismatch, unexplained, regions):", out[-3000:])
-    m = re.findall(r"\((\d+), (\d+), (true|false), (true|false), (\d+)\)", out)
-    for r, j, mm, un, reg in m[:10]:
+    print("detail (run, graph, model-mismatch, property violated):", out[-3000:])
+    m = re.findall(r"\((\d+), (\d+), (true|false), (true|false)\)", out)
+    for r, j, mm, un in m[:10]:
         g = runs[int(r)][int(j)]
         print(f" run {r} graph {j}: {g['ident']} roots={g['roots']} lims={g['lims']} nodes={g['nodes']} "
               f"edges={[(t, h, d) for t, h, d, _ in g['edges']]} trunc={g['trunc']} hop={g['hop']}")
